@@ -1,6 +1,6 @@
 (* C03 — the pipeline is the documented stage composition in the documented order.
    Only statements, closed by `exact`, each followed by its assumptions. *)
-From Jawk Require Import Base Json Reader Ctx Printer Expr Chain PipelineSpec OrderProofs SorterProofs ChainProofs Go GoProofs.
+From Jawk Require Import Base Json Reader Ctx Printer Expr Chain PipelineSpec OrderProofs SorterProofs ChainProofs Go GoProofs BuildProofs.
 
 (* for every expression semantics `get`, every well-shaped pipeline and every input sequence, running the
    chain of stage processes (start/process/complete with Break) equals applying the documented stages as
@@ -52,3 +52,30 @@ Proof.
   reflexivity.
 Qed.
 Print Assumptions C03_go.
+
+(* every pipeline Master::go builds has the shape the refinement theorem needs *)
+Theorem C03_build_shape : forall c p sts,
+  build_pipeline c = Some (p, sts) ->
+  (forall t, c_take c = Some t -> (c_skip c + t <= 18446744073709551615)%N) ->
+  wfp expr sts.
+Proof. exact build_wfp. Qed.
+Print Assumptions C03_build_shape.
+
+(* end to end: for every configuration that builds, on one input without read errors under --on-error=ignore,
+   the rows written are the header followed by the rows of the documented composition of stages applied to
+   the contexts of the parsed values *)
+Theorem C03_program : forall (cf : cfg) (fname : option str) (evs : list ev) (b : bool) p sts hdr,
+  c_on_error cf = OnIgnore -> Forall (fun e => e <> EErr) evs ->
+  build_pipeline cf = Some (p, sts) ->
+  start_output p (titles expr sts []) (c_rowsep cf) = Some hdr ->
+  (forall t, c_take cf = Some t -> (c_skip cf + t <= 18446744073709551615)%N) ->
+  let cs := fst (fst (ctxs_of_input cf fname evs)) in
+  g_result (go cf [(fname, evs)] b) = GOk /\
+  g_events (go cf [(fname, evs)] b) =
+    (match hdr with [] => [] | _ => [OOut hdr] end) ++
+    emit cf p (length (titles expr sts [])) (spec expr get sts cs).
+Proof.
+  intros cf fname evs b p sts hdr H1 H2 H3 H4 Hb.
+  exact (C03_go cf fname evs b p sts hdr H1 H2 H3 H4 (build_wfp cf p sts H3 Hb)).
+Qed.
+Print Assumptions C03_program.
